@@ -108,6 +108,26 @@ CHECKS = {
    "DESIGN.md §3 C19"),
 }
 
+# additions of later rounds, appended to the level text of the check
+EXTRA = {
+ "C01": " Also through a recording proxy in front of a real roughenough-server of the current tree: the genuine response of one run replayed to a later run, and with -n 2 (thorough 3) every assignment of the run's genuine responses to its requests.",
+ "C03": " The client is also run under six local time zones (POSIX strings and tz-database names) with and without -z at instants around DST changes: %s equals the midpoint and the calendar fields equal midpoint + zone offset.",
+ "C05": " Every family runs with the capturing logger at Trace and with logging off; offset-grid family: every offset word over every aligned value up to past the message length, offset pairs over a grid.",
+ "C06": " Every family runs with the capturing logger at Trace and with logging off; offset-grid family: every offset word over every aligned value up to past the message length, offset pairs over a grid.",
+ "C07": " Plus all permutations of the tag sequence of 11 request shapes (only the ascending order is well-formed) and header-word sweeps of valid requests.",
+ "C08": " Plus ~4.3k near-valid single datagrams (every header word of a valid classic / IETF / IETF+SRV request swept over its range) at every log level.",
+ "C09": " IETF pool requests also name [0, draft-13] in VER; a framed request naming only version 0 is among the rejected kinds.",
+ "C10": " Certificate sequences also certify the same online key again for the same and the other protocol.",
+ "C12": " The table runs in five server states (batch sizes 1/2/4 with groups filling the batch exactly; after a full batch of 64).",
+ "C13": " Verifier also over every message length 0..=4096 in 5-7 chunkings with bit flips, prefix signatures and extended messages.",
+ "C14": " Plus every sequence (length 2..=3, thorough 4) of decrypt operations (healthy / each provider fault / another provider / tampered copy) on one blob in one process, each step judged.",
+ "C15": " A thread that never reaches another hook point is decided on the real process (held, then with every thread released): blocked for good = violation start-hang.",
+ "C17": " Plus the real Responder driven with return addresses send_to fails for: recorder totals vs datagrams that actually arrived, per batch.",
+ "C20": " Plus configuration files whose structure is not a flat mapping (list, scalar, nested, sequences, several documents, broken quoting), output of the real server scanned.",
+}
+for k, v in EXTRA.items():
+    e = list(CHECKS[k]); e[3] = e[3] + v; CHECKS[k] = tuple(e)
+
 PENDING_REASON = "check not built yet in this session (planned, see DESIGN.md §3); no claim is made until it is"
 NA = {}
 
@@ -152,7 +172,7 @@ m = {
  ],
  "checks": checks,
  "not_applicable": not_app,
- "notes": "All checks: exit 0 held / 1 violation (VIOLATION line) / 2 machinery error. Known findings: /verif/known_findings.json. Design: /verif/DESIGN.md.",
+ "notes": "All checks: exit 0 held / 1 violation (VIOLATION line) / 2 machinery error. A pass that records candidate violations is followed by a confirming second pass (patient harness pacing); only what recurs is reported. Known findings: /verif/known_findings.json. Design: /verif/DESIGN.md.",
 }
 json.dump(m, open(os.path.join(V, "MANIFEST.json"), "w"), indent=1)
 print("checks:", [c["property_id"] for c in checks], "not_applicable:", len(not_app))
